@@ -5,6 +5,8 @@
 //	-workload fee     randomized concurrent histories over shared FeeQuotes / FeeQuote values
 //	-workload engine  one interpreter.Engine validating distinct transactions from many goroutines
 //	-workload engine-sametx  (informational) the inputs of one transaction from different goroutines
+//	-workload engine-ro      (shared.go; built without -race) every script handed to the engine in read-only pages
+//	-workload engine-hammer  (shared.go; built without -race) the cheap jobs of a round validated over and over
 //
 // Result: one JSON document in -result; a progress marker (-result + ".progress") names the
 // history being run, so that the parent can attribute a process-fatal error
@@ -56,21 +58,27 @@ type History struct {
 }
 
 type EngineRound struct {
-	Seed       uint64   `json:"seed"`
-	Goroutines int      `json:"goroutines"`
-	Procs      int      `json:"gomaxprocs"`
-	Jobs       int      `json:"jobs"`
-	Kinds      []string `json:"kinds"`
-	Concurrent []bool   `json:"concurrent"`
-	Sequential []bool   `json:"sequential"`
-	Race       string   `json:"race,omitempty"`
-	Deadlock   bool     `json:"deadlock,omitempty"`
-	Bad        []string `json:"bad,omitempty"`
+	Seed        uint64   `json:"seed"`
+	Goroutines  int      `json:"goroutines"`
+	Procs       int      `json:"gomaxprocs"`
+	Jobs        int      `json:"jobs"`
+	Kinds       []string `json:"kinds"`
+	Concurrent  []bool   `json:"concurrent"`
+	Sequential  []bool   `json:"sequential"`
+	Race        string   `json:"race,omitempty"`
+	Deadlock    bool     `json:"deadlock,omitempty"`
+	Bad         []string `json:"bad,omitempty"`
+	Index       int      `json:"index"`
+	Shared      int      `json:"shared_script_objects"` // locking script objects named by more than one transaction of the round
+	Differs     []string `json:"differs,omitempty"`     // the jobs whose concurrent verdict is not the sequential one, spelled out
+	Validations int64    `json:"validations,omitempty"` // engine-hammer: how many validations ran concurrently
 }
 
 type Result struct {
 	Histories []History     `json:"histories,omitempty"`
 	Rounds    []EngineRound `json:"rounds,omitempty"`
+	Probe     *ProbeResult  `json:"probe,omitempty"`
+	PoolNote  string        `json:"pool_note,omitempty"`
 	RaceBuild bool          `json:"race_build"`
 }
 
@@ -100,7 +108,11 @@ func progress(s string) {
 }
 
 func main() {
-	workload := flag.String("workload", "fee", "fee|engine")
+	workload := flag.String("workload", "fee", "fee|engine|engine-sametx|engine-ro")
+	repo := flag.String("repo", "/repo", "the go-bt checkout (node script vectors)")
+	thorough := flag.Bool("thorough", false, "thorough tier")
+	hammerMs := flag.Int("hammer-ms", 200, "engine-hammer: time budget of a round, milliseconds")
+	only := flag.Int("only", -1, "engine / engine-hammer: run only the round with this index (replay of one round of a run)")
 	seed := flag.Uint64("seed", 1, "seed")
 	n := flag.Int("n", 50, "histories / rounds")
 	flag.StringVar(&resultPath, "result", "", "result file")
@@ -123,11 +135,40 @@ func main() {
 				break
 			}
 		}
-	case "engine", "engine-sametx":
+	case "engine-ro":
+		pl := newPool(*repo, *seed, *thorough)
+		res.PoolNote = pl.note
+		pr := roProbe(*seed, *n, pl, *thorough)
+		res.Probe = &pr
+	case "engine-hammer":
+		pl := newPool(*repo, *seed, *thorough)
+		res.PoolNote = pl.note
+		budget := time.Duration(*hammerMs) * time.Millisecond
 		for i := 0; i < *n; i++ {
 			hs := r.U64()
-			progress(fmt.Sprintf("engine round seed=%d", hs))
-			e := engineRound(hs, *workload == "engine-sametx")
+			if *only >= 0 && i != *only {
+				continue
+			}
+			progress(fmt.Sprintf("engine-hammer round %d seed=%d", i, hs))
+			e := hammerRound(hs, i, pl, budget)
+			res.Rounds = append(res.Rounds, e)
+			if e.Deadlock {
+				break
+			}
+		}
+	case "engine", "engine-sametx":
+		var pl *pool
+		if *workload == "engine" {
+			pl = newPool(*repo, *seed, *thorough)
+			res.PoolNote = pl.note
+		}
+		for i := 0; i < *n; i++ {
+			hs := r.U64()
+			if *only >= 0 && i != *only {
+				continue
+			}
+			progress(fmt.Sprintf("engine round %d seed=%d", i, hs))
+			e := engineRound(hs, *workload == "engine-sametx", i, pl)
 			res.Rounds = append(res.Rounds, e)
 			if e.Deadlock {
 				break
@@ -541,6 +582,22 @@ func b2u(b bool) uint64 {
 type job struct {
 	kind string
 	opts func() []interpreter.ExecutionOptionFunc
+	spec *progSpec // the scripts and flags, for jobs built from a program
+	// for jobs over a signed transaction: the parts, so that the read-only probe can rebuild the job over other storage
+	tx   *bt.Tx
+	in   int
+	prev *bt.Output
+	more []interpreter.ExecutionOptionFunc
+}
+
+func (j job) describe() string {
+	if j.spec != nil {
+		return j.spec.describe()
+	}
+	if j.tx != nil && j.prev != nil && j.prev.LockingScript != nil {
+		return fmt.Sprintf("%s: input %d of tx %s spending an output with locking script %x", j.kind, j.in, j.tx.String(), []byte(*j.prev.LockingScript))
+	}
+	return j.kind
 }
 
 func keyFor(r *common.Rand) *bec.PrivateKey {
@@ -612,15 +669,15 @@ func p2pkhJobs(r *common.Rand, sw *sharedWallet) []job {
 			amount++
 		}
 		prev := &bt.Output{Satoshis: amount, LockingScript: lock}
-		jobs = append(jobs, job{kind: kind, opts: func() []interpreter.ExecutionOptionFunc {
-			o := []interpreter.ExecutionOptionFunc{interpreter.WithTx(tx, i, prev), interpreter.WithAfterGenesis()}
-			if !legacy {
-				o = append(o, interpreter.WithForkID())
-			}
-			if strict {
-				o = append(o, interpreter.WithFlags(scriptflag.VerifyLowS|scriptflag.VerifyDERSignatures|scriptflag.VerifyStrictEncoding|scriptflag.VerifyNullFail|scriptflag.VerifyMinimalData))
-			}
-			return o
+		more := []interpreter.ExecutionOptionFunc{interpreter.WithAfterGenesis()}
+		if !legacy {
+			more = append(more, interpreter.WithForkID())
+		}
+		if strict {
+			more = append(more, interpreter.WithFlags(scriptflag.VerifyLowS|scriptflag.VerifyDERSignatures|scriptflag.VerifyStrictEncoding|scriptflag.VerifyNullFail|scriptflag.VerifyMinimalData))
+		}
+		jobs = append(jobs, job{kind: kind, tx: tx, in: i, prev: prev, more: more, opts: func() []interpreter.ExecutionOptionFunc {
+			return append([]interpreter.ExecutionOptionFunc{interpreter.WithTx(tx, i, prev)}, more...)
 		}})
 	}
 	return jobs
@@ -632,10 +689,11 @@ type sharedWallet struct {
 	lock, csLock *bscript.Script
 	csAfter      *bscript.Script // what follows the OP_CODESEPARATOR of csLock
 	lock0, cs0   []byte
+	ms           []*bec.PrivateKey // the keys of the bare 2-of-3 multisig output script several transactions name
 }
 
 func newSharedWallet(r *common.Rand) *sharedWallet {
-	sw := &sharedWallet{key: keyFor(r), keyB: keyFor(r)}
+	sw := &sharedWallet{key: keyFor(r), keyB: keyFor(r), ms: []*bec.PrivateKey{keyFor(r), keyFor(r), keyFor(r)}}
 	var err error
 	if sw.lock, err = bscript.NewP2PKHFromPubKeyBytes(sw.key.PubKey().SerialiseCompressed()); err != nil {
 		panic(err)
@@ -699,7 +757,8 @@ func codesepJobs(r *common.Rand, sw *sharedWallet) []job {
 	_ = unlock.AppendPushData(sigA)
 	tx.Inputs[0].UnlockingScript = unlock
 	prev := &bt.Output{Satoshis: sats, LockingScript: sw.csLock}
-	return []job{{kind: kind, opts: func() []interpreter.ExecutionOptionFunc {
+	more := []interpreter.ExecutionOptionFunc{interpreter.WithAfterGenesis(), interpreter.WithForkID()}
+	return []job{{kind: kind, tx: tx, prev: prev, more: more, opts: func() []interpreter.ExecutionOptionFunc {
 		return []interpreter.ExecutionOptionFunc{interpreter.WithTx(tx, 0, prev), interpreter.WithAfterGenesis(), interpreter.WithForkID()}
 	}}}
 }
@@ -743,7 +802,8 @@ func multisigJobs(r *common.Rand) []job {
 	}
 	tx.Inputs[0].UnlockingScript = bscript.NewFromBytes(unlock)
 	prev := &bt.Output{Satoshis: sats, LockingScript: lock}
-	return []job{{kind: kind, opts: func() []interpreter.ExecutionOptionFunc {
+	more := []interpreter.ExecutionOptionFunc{interpreter.WithAfterGenesis(), interpreter.WithForkID()}
+	return []job{{kind: kind, tx: tx, prev: prev, more: more, opts: func() []interpreter.ExecutionOptionFunc {
 		return []interpreter.ExecutionOptionFunc{interpreter.WithTx(tx, 0, prev), interpreter.WithAfterGenesis(), interpreter.WithForkID()}
 	}}}
 }
@@ -811,7 +871,7 @@ func verdict(e interpreter.Engine, j job) (ok bool) {
 // sameTx=false every unit is validated by exactly one goroutine ("different transactions from many
 // goroutines", the property); with sameTx=true the inputs of one transaction are spread over
 // goroutines (informational: Execute writes the previous output into the caller's tx).
-func engineRound(seed uint64, sameTx bool) EngineRound {
+func engineRound(seed uint64, sameTx bool, index int, pl *pool) EngineRound {
 	r := common.NewRand(seed)
 	g := 2 + r.Intn(15)
 	procs := procChoices[r.Intn(len(procChoices))]
@@ -848,7 +908,34 @@ func engineRound(seed uint64, sameTx bool) EngineRound {
 		}
 		jobs = append(jobs, u...)
 	}
-	out := EngineRound{Seed: seed, Goroutines: g, Procs: procs, Jobs: len(jobs)}
+	// script objects named by several transactions, read by every opcode family; script features of every kind
+	shared := &sharedSet{}
+	if !sameTx && pl != nil {
+		var units [][]job
+		units = append(units, contractUnits(r, index, 7, shared)...)
+		units = append(units, pl.programUnits(r, 40, shared)...)
+		msLock := shared.add("bare 2-of-3 multisig", heapScript(multisigLockBytes(sw.ms)))
+		for k := 0; k < 2; k++ {
+			units = append(units, signedTailJobs(r, sw, heapScript))
+			units = append(units, sharedMultisigJobs(r, sw, msLock, heapScript))
+		}
+		nu := 0
+		if len(unit) > 0 {
+			nu = unit[len(unit)-1] + 1
+		}
+		// interleave: the spenders of one script object go to different goroutines, and not all at the end
+		for _, u := range units {
+			for range u {
+				unit = append(unit, nu)
+			}
+			jobs = append(jobs, u...)
+			nu++
+		}
+	}
+	out := EngineRound{Seed: seed, Goroutines: g, Procs: procs, Jobs: len(jobs), Index: index, Shared: len(shared.objs)}
+	if sw != nil {
+		out.Shared += 2 // the P2PKH and the OP_CODESEPARATOR script objects of the round's wallet
+	}
 	kinds := map[string]bool{}
 	for _, j := range jobs {
 		kinds[j.kind] = true
@@ -876,7 +963,7 @@ func engineRound(seed uint64, sameTx bool) EngineRound {
 
 	// one shared engine; every (tx, input) pair is validated exactly once; all inputs of one tx by the
 	// same goroutine unless sameTx
-	shared := interpreter.NewEngine()
+	engine := interpreter.NewEngine()
 	out.Concurrent = make([]bool, len(jobs))
 	var wg sync.WaitGroup
 	start := make(chan struct{})
@@ -892,7 +979,7 @@ func engineRound(seed uint64, sameTx bool) EngineRound {
 					owner = i % g
 				}
 				if owner == gi {
-					out.Concurrent[i] = verdict(shared, jobs[i])
+					out.Concurrent[i] = verdict(engine, jobs[i])
 				}
 			}
 		}()
@@ -903,10 +990,15 @@ func engineRound(seed uint64, sameTx bool) EngineRound {
 	}
 	out.Race = newRaces()
 	if sw != nil {
-		out.Bad = sw.changed()
+		out.Bad = append(sw.changed(), shared.changed()...)
 	}
 	if coldStart && !out.Deadlock {
 		sequential()
+	}
+	for i := range jobs {
+		if !out.Deadlock && out.Concurrent[i] != out.Sequential[i] && len(out.Differs) < 5 {
+			out.Differs = append(out.Differs, fmt.Sprintf("job %d, concurrent verdict %v, sequential verdict %v: %s", i, out.Concurrent[i], out.Sequential[i], jobs[i].describe()))
+		}
 	}
 	return out
 }
